@@ -180,6 +180,25 @@ def body(chk: check.Check):
         for m in val['mismatches']:
             chk.violation('integrand:' + m['what'][:40], {**dict(formula=desc, ops=rec['ops']), **m}, match=dict(kind='value', features=exprenv.features(rec['ops'], rec['root'], len(dpool.leaves))))
     chk.extra['general_integrands'] = len(ints)
+    # the Monte-Carlo operator INSIDE a formula (log(MonteCarlo(..)) + x, MonteCarlo(..) * b, ...): the mean over the
+    # draws of the observation, the same whatever is built above it
+    mpool = exprenv.pool_mc()
+    inside = []
+    for max_ops, thin in ([(2, (2, 2))] if quick else [(2, (1, 1)), (3, (4, 6, 8))]):
+        r = tlc.run('MCExprGen', mpool.cfg(max_ops, ['SigSound', 'EmitInv'], salt=salt), extra_modules={'MCExprGen': mpool.module(thin=thin)}, workers='auto', timeout=2400)
+        chk.add_tlc(f'ExprLang with the Monte-Carlo operator inside: {max_ops} operator(s), thin {thin}', r)
+        inside += r.emitted
+    exprreplay.init(mpool)
+    for rec, (st, val) in zip(inside, par.pmap(exprreplay.replay_values, inside, chunk=40, timeout=900)):
+        desc = exprreplay.describe(rec)
+        chk.replayed += 1
+        if st != 'ok':
+            chk.violation(f'inside:{st}', dict(formula=desc, error=val), match=dict(kind='exception'))
+            continue
+        chk.count(('inside', desc), val['n'])
+        for m in val['mismatches']:
+            chk.violation('inside:value', {**dict(formula=desc, ops=rec['ops']), **m}, match=dict(kind='value', features=exprenv.features(rec['ops'], rec['root'], len(mpool.leaves))))
+    chk.extra['formulas_with_the_operator_inside'] = len(inside)
     results = par.pmap(replay_calc, cases, chunk=25, timeout=900)
     for case, (st, val) in zip(cases, results):
         chk.replayed += 1
